@@ -112,7 +112,7 @@ struct MemoryStream final : public AnyStream {
   int getc() override { return cur < end ? *cur++ : EOF; }
 
   bool read(void* buf, size_t len) override {
-    if (cur + len > end)
+    if (len > size_t(end - cur))
       return false;
     std::memcpy(buf, cur, len);
     cur += len;
@@ -129,8 +129,13 @@ struct MemoryStream final : public AnyStream {
     return cur - start;
   }
   bool skip(size_t n) override {
+    // never move past the end (the other functions rely on cur <= end)
+    if (n >= size_t(end - cur)) {
+      cur = end;
+      return false;
+    }
     cur += n;
-    return cur < end;
+    return true;
   }
 
 private:
